@@ -145,6 +145,8 @@ pub enum Op {
     ToLeanDisplay(u8),
     FromStatic(u8),
     WithCap(u8),
+    /// other conversions: (kind, text/value selector), see `conv_*`
+    Conv(u8, u8),
     // sharing
     Clone(u8),
     FromRef(u8),
@@ -186,7 +188,7 @@ impl Op {
     pub fn target(self) -> Option<usize> {
         use Op::*;
         Some(match self {
-            New | FromStr(_) | FromString(_) | Collect(_) | ToLeanDisplay(_) | FromStatic(_) | WithCap(_) | WithCapAbs(_) => return None,
+            New | FromStr(_) | FromString(_) | Collect(_) | ToLeanDisplay(_) | FromStatic(_) | WithCap(_) | WithCapAbs(_) | Conv(..) => return None,
             Clone(_) | FromRef(_) | ToLeanClone(_) => return None,
             CloneFrom(_, d) | Assign(_, d) => d,
             Drop(i) | Push(i, _) | PushStr(i, _) | Pop(i) | Remove(i, _) | Insert(i, _, _) | InsertStr(i, _, _) | Truncate(i, _) | Clear(i) | Retain(i, _) | Reserve(i, _) | ShrinkTo(i, _) | ShrinkFit(i) | ExtendChars(i) | ExtendStrs(i) | ExtendLean(i, _) | AddAssign(i) | Add(i) | WriteFmt(i) | ReserveHuge(i, _) | ExtendHuge(i, _) | RetainPanic(i, _) | TruncateAbs(i, _) | PushAscii(i, _) => i,
@@ -194,7 +196,7 @@ impl Op {
     }
     pub fn is_ctor(self) -> bool {
         use Op::*;
-        matches!(self, New | FromStr(_) | FromString(_) | Collect(_) | ToLeanDisplay(_) | FromStatic(_) | WithCap(_) | WithCapAbs(_))
+        matches!(self, New | FromStr(_) | FromString(_) | Collect(_) | ToLeanDisplay(_) | FromStatic(_) | WithCap(_) | WithCapAbs(_) | Conv(..))
     }
     pub fn is_clone(self) -> bool {
         use Op::*;
@@ -210,6 +212,7 @@ impl Op {
             ToLeanDisplay(_) => "to_lean_string_display",
             FromStatic(_) => "from_static_str",
             WithCap(_) | WithCapAbs(_) => "with_capacity",
+            Conv(k, _) => CONV_NAMES[k as usize],
             Clone(_) => "clone",
             FromRef(_) => "from_ref",
             ToLeanClone(_) => "to_lean_string_clone",
@@ -418,6 +421,88 @@ impl std::fmt::Display for Piecewise<'_> {
     }
 }
 
+/// try_to_lean_string with the two error kinds kept apart: an allocation failure must be
+/// reported as `Reserve`; a `Fmt` error here is turned into a (non-allocation) panic.
+pub fn try_tls<T: ToLeanString>(v: &T) -> Result<LeanString, lean_string::ReserveError> {
+    match v.try_to_lean_string() {
+        Ok(s) => Ok(s),
+        Err(lean_string::ToLeanStringError::Reserve(e)) => Err(e),
+        Err(lean_string::ToLeanStringError::Fmt(_)) => panic!("try_to_lean_string returned Err(Fmt)"),
+    }
+}
+
+pub const CONV_NAMES: [&str; 12] = ["from_utf8", "from_utf8_lossy", "from_utf16", "from_utf16_lossy", "to_lean_string_string", "from_box_str", "from_ref_string", "from_cow_owned", "to_lean_string_int", "to_lean_string_i128", "from_char", "to_lean_string_bool"];
+pub const CONV_KINDS: u8 = 12;
+
+fn conv_bytes(t: u8) -> Vec<u8> {
+    // source text with one invalid byte spliced in for the lossy decoders
+    let mut b = texts(|x| x.src[t as usize].as_bytes().to_vec());
+    let at = b.len() / 2;
+    let at = (0..=at).rev().find(|&i| std::str::from_utf8(&b[..i]).is_ok()).unwrap_or(0);
+    b.insert(at, 0xFF);
+    b
+}
+fn conv_u16(t: u8, lossy: bool) -> Vec<u16> {
+    let mut v: Vec<u16> = texts(|x| x.src[t as usize].encode_utf16().collect());
+    if lossy {
+        v.insert(v.len() / 2, 0xD800);
+        // a lone high surrogate followed by a non-surrogate is one invalid unit
+    }
+    v
+}
+const CONV_INTS: [u64; 5] = [0, 9_999_999_999_999_999, 10_000_000_000_000_000, u64::MAX, 12345];
+const CONV_I128: [i128; 5] = [0, -1, i128::MIN, i128::MAX, -9_999_999_999_999_999];
+
+/// the text the reference (std) produces for conversion `(k, t)`
+pub fn conv_text(k: u8, t: u8) -> String {
+    let src = texts(|x| x.src[(t as usize) % x.src.len()].clone());
+    match k {
+        0 | 2 | 4 | 5 | 6 | 7 => src,
+        1 => String::from_utf8_lossy(&conv_bytes(t)).into_owned(),
+        3 => String::from_utf16_lossy(&conv_u16(t, true)),
+        8 => CONV_INTS[t as usize % 5].to_string(),
+        9 => CONV_I128[t as usize % 5].to_string(),
+        10 => CHARS[t as usize % 4].to_string(),
+        _ => (t % 2 == 0).to_string(),
+    }
+}
+
+pub fn conv_build(k: u8, t: u8, try_form: bool) -> Result<LeanString, lean_string::ReserveError> {
+    let src = texts(|x| x.src[(t as usize) % x.src.len()].clone());
+    Ok(match k {
+        0 => LeanString::from_utf8(src.as_bytes()).unwrap(),
+        1 => LeanString::from_utf8_lossy(&conv_bytes(t)),
+        2 => LeanString::from_utf16(&conv_u16(t, false)).unwrap(),
+        3 => LeanString::from_utf16_lossy(&conv_u16(t, true)),
+        4 => {
+            if try_form {
+                try_tls(&src)?
+            } else {
+                src.to_lean_string()
+            }
+        }
+        5 => LeanString::from(src.into_boxed_str()),
+        6 => LeanString::from(&src),
+        7 => LeanString::from(Cow::<str>::Owned(src)),
+        8 => {
+            let v = CONV_INTS[t as usize % 5];
+            if try_form { try_tls(&v)? } else { v.to_lean_string() }
+        }
+        9 => {
+            let v = CONV_I128[t as usize % 5];
+            if try_form { try_tls(&v)? } else { v.to_lean_string() }
+        }
+        10 => {
+            let c = CHARS[t as usize % 4];
+            if try_form { try_tls(&c)? } else { LeanString::from(c) }
+        }
+        _ => {
+            let b = t % 2 == 0;
+            if try_form { try_tls(&b)? } else { b.to_lean_string() }
+        }
+    })
+}
+
 pub fn shrink_arg(h: &LeanString, k: u8) -> usize {
     match k {
         0 => 0,
@@ -486,6 +571,7 @@ pub fn op_enabled(p: &Pool, op: Op, lim: &Limits) -> bool {
         if let Some(post) = lim.post {
             let n = match op {
                 FromStr(t) | FromString(t) | Collect(t) | ToLeanDisplay(t) => texts(|x| x.src[t as usize].len()),
+                Conv(k, t) => conv_text(k, t).len(),
                 FromStatic(t) => texts(|x| x.statics[t as usize].len()),
                 WithCap(c) => texts(|x| x.caps[c as usize]),
                 WithCapAbs(n) => n as usize,
@@ -584,7 +670,7 @@ pub fn exec(p: &mut Pool, op: Op, form: Form) -> (Outcome, Expect) {
         }
         ToLeanDisplay(t) => {
             let s = texts(|x| x.src[t as usize].clone());
-            ctor!(Piecewise(&s).to_lean_string(), Piecewise(&s).try_to_lean_string().map_err(|_| lean_string::ReserveError), s.clone())
+            ctor!(Piecewise(&s).to_lean_string(), try_tls(&Piecewise(&s)), s.clone())
         }
         FromStatic(t) => {
             let s: &'static str = texts(|x| x.statics[t as usize]);
@@ -595,6 +681,10 @@ pub fn exec(p: &mut Pool, op: Op, form: Form) -> (Outcome, Expect) {
             ctor!(LeanString::with_capacity(n), LeanString::try_with_capacity(n), String::new())
         }
         WithCapAbs(n) => ctor!(LeanString::with_capacity(n as usize), LeanString::try_with_capacity(n as usize), String::new()),
+        Conv(k, t) => {
+            let text = conv_text(k, t);
+            ctor!(conv_build(k, t, false).unwrap(), conv_build(k, t, true), text.clone())
+        }
         Clone(i) | FromRef(i) | ToLeanClone(i) => {
             let e = p.empty_slot().unwrap();
             let src = p.s[i as usize].h.as_ref().unwrap();
